@@ -258,55 +258,66 @@ func c02HopProvenance(c *Ctx, hf *ssa.Function) {
 	c.floor(rule, 12)
 }
 
-// viaCount recognises Size()/len(params) of a given *Via value.
-func (w *World) isViaCount(v ssa.Value, via func(ssa.Value) bool) bool {
-	if cc := w.resultOfCallTo(v, "(*Via).Size", 0); cc != nil {
-		return via(callArg(cc, -1))
+// popSpec describes one "pop the first entry of a list header" function.
+type popSpec struct {
+	Fn, Getter, CountFn, ListRef, PopFn, Header, Label string
+}
+
+var viaPop = popSpec{"(*Message).PopVia", "(*Message).GetVia", "(*Via).Size", "Via.params", "(*Via).PopViaParam", "Via", "PopVia"}
+var routePop = popSpec{"(*Message).PopRoute", "(*Message).GetRoute", "(*Route).GetRouteParamCount", "Route.routeParams", "(*Route).PopRouteParam", "Route", "PopRoute"}
+
+// isListCount recognises CountFn()/len(list) of a given decoded header value.
+func (w *World) isListCount(v ssa.Value, sp popSpec, hdr func(ssa.Value) bool) bool {
+	if cc := w.resultOfCallTo(v, sp.CountFn, 0); cc != nil {
+		return hdr(callArg(cc, -1))
 	}
 	if x, ok := lenOf(v); ok {
-		if b, ok := isLoadOf(x, "Via.params"); ok {
-			return via(b)
+		if b, ok := isLoadOf(x, sp.ListRef); ok {
+			return hdr(b)
 		}
 	}
 	return false
 }
 
-func c02PopStructure(c *Ctx) {
+func c02PopStructure(c *Ctx) { checkPopOne(c, "pop-structure", viaPop) }
+
+// checkPopOne: the pop removes one list entry when the top header line holds >= 2 entries and the whole
+// header line otherwise; exactly one removal per call; the entry pop is delete-first.
+func checkPopOne(c *Ctx, rule string, sp popSpec) {
 	w := c.w
-	rule := "pop-structure"
-	pv := c.fn(rule, "(*Message).PopVia")
+	pv := c.fn(rule, sp.Fn)
 	if pv != nil {
-		gvs := w.callsIn(pv, "(*Message).GetVia")
+		gvs := w.callsIn(pv, sp.Getter)
 		if len(gvs) != 1 {
-			c.undecided(rule, "PopVia/GetVia", w.pos(pv.Pos()), "PopVia does not obtain the top Via through exactly one GetVia()")
+			c.undecided(rule, sp.Label+"/getter", w.pos(pv.Pos()), sp.Label+" does not obtain the top header through exactly one "+sp.Getter)
 		} else {
 			gv := gvs[0].In
-			via := func(v ssa.Value) bool { return isResultOf(v, gv, 0) }
-			cnt := func(a Atom) bool { return a.Kind == "ltk" && a.K == 2 && w.isViaCount(a.X, via) }
-			pps := w.callsIn(pv, "(*Via).PopViaParam")
+			hdr := func(v ssa.Value) bool { return isResultOf(v, gv, 0) }
+			cnt := func(a Atom) bool { return a.Kind == "ltk" && a.K == 2 && w.isListCount(a.X, sp, hdr) }
+			pps := w.callsIn(pv, sp.PopFn)
 			rhs := w.callsIn(pv, "(*Message).RemoveHeader")
-			c.check(len(pps) == 1 && via(callArg(pps[0].In, -1)) && w.requires(pv, pps[0].In, cnt, false), rule, "PopVia/pop-entry", w.pos(pv.Pos()),
-				"one via-param is removed only when the top Via header holds >= 2 entries",
-				"PopVia must call PopViaParam on the top Via exactly when it holds >= 2 entries (guard Size()>1 missing, changed, or call absent)", "guard: !(Size < 2)")
+			c.check(len(pps) == 1 && hdr(callArg(pps[0].In, -1)) && w.requires(pv, pps[0].In, cnt, false), rule, sp.Label+"/pop-entry", w.pos(pv.Pos()),
+				"one entry is removed only when the top "+sp.Header+" header holds >= 2 entries",
+				sp.Label+" must call "+sp.PopFn+" on the top header exactly when it holds >= 2 entries (guard count > 1 missing, changed, or call absent): otherwise an empty header line is left behind, or a whole line with several entries is dropped", "guard: !(count < 2)")
 			okRH := len(rhs) == 1 && w.requires(pv, rhs[0].In, cnt, true)
 			if okRH {
 				s, isS := constString(callArg(rhs[0].In, 0))
-				okRH = isS && s == "Via"
+				okRH = isS && s == sp.Header
 			}
-			c.check(okRH, rule, "PopVia/remove-header", w.pos(pv.Pos()),
-				"the whole Via header line is removed only when it holds a single entry",
-				"PopVia must call RemoveHeader(\"Via\") exactly when the top Via holds < 2 entries", "guard: Size < 2")
-			// every successful path pops something: on err==nil of GetVia, min count of (pop|remove) is 1, max 1
+			c.check(okRH, rule, sp.Label+"/remove-header", w.pos(pv.Pos()),
+				"the whole header line is removed only when it holds a single entry",
+				sp.Label+" must call RemoveHeader(\""+sp.Header+"\") exactly when the top header holds < 2 entries", "guard: count < 2")
 			keep := w.under(assumeAtom(errNil(gv), true))
 			mn, mx, inf := countSites(entryPt(pv), keep, inSet(append(siteInstrs(pps), siteInstrs(rhs)...)))
-			c.check(mn == 1 && mx == 1 && !inf, rule, "PopVia/exactly-one-removal", w.pos(pv.Pos()),
-				"with a decodable Via exactly one removal happens on every path", fmt.Sprintf("removal count per PopVia is min=%d max=%d loop=%v, expected exactly 1", mn, mx, inf))
+			c.check(mn == 1 && mx == 1 && !inf, rule, sp.Label+"/exactly-one-removal", w.pos(pv.Pos()),
+				"with a decodable header exactly one removal happens on every path", fmt.Sprintf("removal count per %s is min=%d max=%d loop=%v, expected exactly 1", sp.Label, mn, mx, inf))
+			c.check(isParam(pv, callArg(gv, -1), 0), rule, sp.Label+"/own-message", w.ipos(gv), "operates on its own message", sp.Label+" reads the header of another message")
 		}
 	}
-	if pp := c.fn(rule, "(*Via).PopViaParam"); pp != nil {
-		w.checkDeleteFirst(c, rule, pp, "Via.params", "PopViaParam")
+	if pp := c.fn(rule, sp.PopFn); pp != nil {
+		w.checkDeleteFirst(c, rule, pp, sp.ListRef, sp.PopFn)
 	}
-	c.floor(rule, 4)
+	c.floor(rule, 5)
 }
 
 // checkDeleteFirst verifies that fn's only store to list field ref is ref = ref[1:], that the element
